@@ -34,7 +34,7 @@ def floors(tier):
     return {"evaluations": 500 if q else 10000, "distinct_nontrivial": 120 if q else 2500, "pairs_checked": 800 if q else 16000,
             "expected_edges": 200 if q else 4000, "expected_no_edge": 400 if q else 8000, "isa:x86": 1, "isa:aarch64": 1,
             "with_bump": 150 if q else 3000, "with_index": 60 if q else 1200, "with_copy": 30 if q else 600, "killed_by_store": 10 if q else 200,
-            "kind:synth": 250 if q else 5000, "kind:curated": 200 if q else 3500, "a64_writeback_between": 15 if q else 300, "bump_copy_bump": 25 if q else 500, "symbolic_displacement": 20 if q else 400, "multi_destination_store": 40 if q else 800, "writeback_store_then_copy": 8 if q else 150, "copy_then_clobber": 20 if q else 400}
+            "kind:synth": 250 if q else 5000, "kind:curated": 200 if q else 3500, "a64_writeback_between": 15 if q else 300, "bump_copy_bump": 25 if q else 500, "symbolic_displacement": 20 if q else 400, "multi_destination_store": 40 if q else 800, "writeback_store_then_copy": 8 if q else 150, "copy_then_clobber": 20 if q else 400, "second_store_other_scale": 3 if q else 60}
 
 
 def plan(tier, seed):
@@ -187,6 +187,10 @@ def stl_kernel(rng, isa, vocab, curated=False):
         elif k < 0.75:
             # another store: same operand (ends the search) or another one
             m2 = dict(sm) if rng.random() < 0.5 else dict(sm, disp=(sm["disp"] or 0) + 8)
+            if sm["index"] and rng.random() < 0.5:
+                # same base, index and displacement, another scale: another operand, the search goes on
+                m2 = dict(sm, scale=rng.choice([x for x in ([1, 8] if isa == "aarch64" else [1, 2, 4, 8]) if x != sm["scale"]]))
+                tags.add("second_store_other_scale")
             if isa == "aarch64" and m2["index"] and m2["disp"] is not None:
                 m2 = dict(sm, index=None, scale=1, disp=8)  # AArch64 has no base+index+displacement form
             if m2["pre"] or m2["post"]:
